@@ -72,6 +72,9 @@ def faults(d, rng):
         yield f"process noise for a state symbol instead of control {U[-1].name} (same size)", ekf_ep, lambda dd: (dd.process_noise.pop(U[-1]), dd.process_noise.__setitem__(S[0], 1.0))
         if C:
             yield f"process noise for a calibration symbol instead of control {U[0].name} (same size)", ekf_ep, lambda dd: (dd.process_noise.pop(U[0]), dd.process_noise.__setitem__(C[0], 1.0))
+    if len(U) >= 2:
+        yield f"process noise keyed by the pair ({U[0].name}, {U[1].name}) instead of control {U[-1].name} (same size)", ekf_ep, lambda dd: (dd.process_noise.pop(U[-1]), dd.process_noise.__setitem__((U[0], U[1]), 0.0))
+        yield "extra process noise entry keyed by a pair of declared controls", ekf_ep, lambda dd: dd.process_noise.__setitem__((U[0], U[1]), 0.25)
     yield "process noise for an undeclared symbol", ekf_ep, lambda dd: dd.process_noise.__setitem__(sympy.Symbol("ghost_u"), 1.0)
     yield "process noise keyed by a string", ekf_ep, lambda dd: dd.process_noise.__setitem__("not_a_symbol", 1.0)
     for sname, sm in d.sensor_models.items():
